@@ -333,20 +333,25 @@ Inductive outcome :=
 | OErr (e : Z) (cancelled : bool)     (* transport error; cancelled = errors.Is(err, context.Canceled)
                                          || r.Context().Err() != nil (cancelled, or past its deadline) *)
 | OStatus (s : Z)
-| OStatusEnded (s : Z).               (* the response arrived without error, but r.Context().Err() != nil
+| OStatusEnded (s : Z)               (* the response arrived without error, but r.Context().Err() != nil
                                          when the loop looks at it (context cancelled / past its deadline
                                          after the response came in, e.g. from a response middleware) *)
+| OStatusErr (s e : Z).               (* a wrapping round tripper (WrapRoundTrip) hands back the response AND
+                                         an error the response does not record: do() stores it in resp.Err.
+                                         (A wrapper returning (nil, err) is OErr: do() makes a fresh
+                                         placeholder response for that attempt.) *)
 
 Definition view_of (o : outcome) : view :=
   match o with
   | OErr e _ => mkView None (Some e)
   | OStatus s => mkView (Some s) None
   | OStatusEnded s => mkView (Some s) None
+  | OStatusErr s e => mkView (Some s) (Some e)
   end.
 Definition is_cancelled (o : outcome) : bool :=
-  match o with OErr _ c => c | OStatus _ => false | OStatusEnded _ => true end.
+  match o with OErr _ c => c | OStatus _ => false | OStatusEnded _ => true | OStatusErr _ _ => false end.
 Definition is_err (o : outcome) : bool :=
-  match o with OErr _ _ => true | OStatus _ => false | OStatusEnded _ => false end.
+  match o with OErr _ _ => true | OStatus _ => false | OStatusEnded _ => false | OStatusErr _ _ => true end.
 
 (* one attempt's inputs: transport outcome and what each request-level after-response
    middleware returns on this attempt (registration order) *)
@@ -455,6 +460,14 @@ Definition run_gen (pinned : bool) (ro : option ropt) (s : rstate) (ins : list a
   | None => do_loop_gen pinned ro 0 s ins
   end.
 Definition run := run_gen false.
+
+(* executing the SAME Request object again: Request.do starts with unmergeClientSettings, which
+   (among other things: builder-C19's Model/ReExec.v models what it takes back from the headers,
+   cookies and form data) restarts RetryAttempt at 0 - for every entry point, Send-based verbs
+   and Do alike.  [resets] = whether the source does that (regenerated by gosync). *)
+Definition exec_start (resets : bool) (s : rstate) : rstate := if resets then set_attempt s 0 else s.
+Definition run_exec (resets : bool) (ro : option ropt) (s : rstate) (ins : list ain) : result :=
+  run ro (exec_start resets s) ins.
 End Loop.
 
 (* ---------- retry.go backoffInterval ---------- *)
